@@ -90,6 +90,18 @@ class ExistingAnnotationStrategy(enum.Enum):
     OMIT = 2
 
 
+def strip_module_prefixes(text: str, modules: Iterable[str]) -> str:
+    """Remove `<module>.` wherever a dotted name in text starts with it.
+
+    Only at the start of a name, so that stripping `utils.` leaves `myutils.X`
+    alone, and the longest module first, so that stripping `pkg.` cannot turn
+    `pkg.sub.X` into `sub.X` before `pkg.sub.` is looked for.
+    """
+    for module in sorted(modules, key=len, reverse=True):
+        text = re.sub(r"(?<![\w.])" + re.escape(module + "."), "", text)
+    return text
+
+
 class ImportMap(DefaultDict[Any, Any]):
     """A mapping of module name to the set of names to be imported."""
 
@@ -371,9 +383,9 @@ class RenderAnnotation(GenericTypeRewriter[str]):
     def rewrite(self, typ: type) -> str:
         rendered = super().rewrite(typ)
         if getattr(typ, "__module__", None) == "typing":
-            rendered = rendered.replace("typing.", "")
+            rendered = strip_module_prefixes(rendered, ["typing"])
         # Temporary hacky workaround for #76 to fix remaining NoneType hints by search-replace
-        rendered = rendered.replace("NoneType", "None")
+        rendered = re.sub(r"(?<![\w.])NoneType\b", "None", rendered)
         return rendered
 
 
@@ -518,8 +530,7 @@ class FunctionStub(Stub):
         s += render_signature(self.signature, 120 - len(s), prefix) + ": ..."
         # Yes, this is a horrible hack, but inspect.py gives us no way to
         # specify the function that should be used to format annotations.
-        for module in self.strip_modules:
-            s = s.replace(module + ".", "")
+        s = strip_module_prefixes(s, self.strip_modules)
         if self.kind == FunctionKind.CLASS:
             s = prefix + "@classmethod\n" + s
         elif self.kind == FunctionKind.STATIC:
